@@ -1,10 +1,16 @@
 #!/bin/sh
-# usage: tools/run_seeded.sh <seed dir name> <prop ...>   apply the seeded change to /repo, run checks, undo
+# usage: tools/run_seeded.sh <seed dir name> <prop ...>   apply the seeded change to /repo, run checks, undo.
+# The evidence files of the checked properties are saved first and restored afterwards: evidence/ must always describe the
+# unchanged tree (a run against a seeded change would otherwise leave a `violation` evidence file behind).
 d=/verif/seeded/$1; shift
 cd /repo || exit 1
 git diff --quiet || { echo "/repo not clean"; exit 1; }
-git apply $d/patch.diff || exit 1
+keep=$(mktemp -d)
+for p in "$@"; do cp /verif/evidence/$p.json $keep/ 2>/dev/null; done
+undo() { cd /repo && git checkout -- .; for p in "$@"; do [ -f $keep/$p.json ] && cp $keep/$p.json /verif/evidence/$p.json; done; rm -rf $keep; }
+trap 'undo "$@"; exit 130' INT TERM
+git apply $d/patch.diff || { undo "$@"; exit 1; }
 for p in "$@"; do
   (cd /verif && ./check $p > /tmp/seed_out.txt 2>&1; echo "[$p] rc=$? $(grep -c '^VIOLATION' /tmp/seed_out.txt) violation lines; $(tail -1 /tmp/seed_out.txt)"; grep '^VIOLATION\|^UNDECIDED\|^CHECKER' /tmp/seed_out.txt | head -5)
 done
-git checkout -- .
+undo "$@"
